@@ -219,6 +219,8 @@ pub struct Interp {
     leaky: Cell<bool>,
     panicked_ever: Cell<bool>,
     wc_stack: RefCell<Vec<*const Weak<Node>>>,
+    stash: RefCell<HashMap<usize, Vec<Cc<Node>>>>,
+    wstash: RefCell<HashMap<usize, Vec<Weak<Node>>>>,
 }
 
 thread_local! {
@@ -280,6 +282,8 @@ impl Interp {
             leaky: Cell::new(false),
             panicked_ever: Cell::new(false),
             wc_stack: RefCell::new(Vec::new()),
+            stash: RefCell::new(HashMap::new()),
+            wstash: RefCell::new(HashMap::new()),
         }
     }
 
@@ -670,6 +674,27 @@ impl Interp {
             Op::Reg(n, sc, k, cap) => self.op_reg(ctx, *n, *sc, *k, *cap),
             Op::Clean(k) => self.op_clean(*k),
             Op::CDrop(k) => self.op_cdrop(*k),
+            Op::CloneN(r, n) => {
+                let Some(id) = self.with_cref(ctx, *r, |cc| cc.id) else { return Ret::Skip };
+                for _ in 0..*n {
+                    let c = self.with_cref(ctx, *r, |cc| cc.clone()).unwrap();
+                    self.stash.borrow_mut().entry(id).or_default().push(c);
+                }
+                Ret::Ok
+            }
+            Op::DropN(r, n) => {
+                let Some(id) = self.with_cref(ctx, *r, |cc| cc.id) else { return Ret::Skip };
+                for _ in 0..*n {
+                    let c = self.stash.borrow_mut().get_mut(&id).and_then(|v| v.pop());
+                    match c {
+                        Some(c) => drop(c),
+                        None => break,
+                    }
+                }
+                Ret::Ok
+            }
+            Op::DownN(r, n) => self.op_downn(ctx, *r, *n),
+            Op::WDropN(r, n) => self.op_wdropn(ctx, *r, *n),
             Op::CfgAuto(b) => {
                 #[cfg(feature = "auto")]
                 {
@@ -804,6 +829,45 @@ impl Interp {
             }
             None => Ret::Skip,
         }
+    }
+
+    #[cfg(not(feature = "weak"))]
+    fn op_downn(&self, _: &Ctx, _: CRef, _: usize) -> Ret { Ret::Skip }
+    #[cfg(not(feature = "weak"))]
+    fn op_wdropn(&self, _: &Ctx, _: CRef, _: usize) -> Ret { Ret::Skip }
+
+    #[cfg(feature = "weak")]
+    fn op_downn(&self, ctx: &Ctx, r: CRef, n: usize) -> Ret {
+        let Some(id) = self.with_cref(ctx, r, |cc| cc.id) else { return Ret::Skip };
+        for _ in 0..n {
+            let w = self.with_cref(ctx, r, |cc| {
+                struct TagOnExit<'a>(&'a Interp, &'a Cc<Node>, usize);
+                impl Drop for TagOnExit<'_> {
+                    fn drop(&mut self) {
+                        let snap = hooks::snapshot(self.1);
+                        self.0.note_meta(self.2, &snap);
+                    }
+                }
+                let _t = TagOnExit(self, cc, id);
+                cc.downgrade()
+            })
+            .unwrap();
+            self.wstash.borrow_mut().entry(id).or_default().push(w);
+        }
+        Ret::Ok
+    }
+
+    #[cfg(feature = "weak")]
+    fn op_wdropn(&self, ctx: &Ctx, r: CRef, n: usize) -> Ret {
+        let Some(id) = self.with_cref(ctx, r, |cc| cc.id) else { return Ret::Skip };
+        for _ in 0..n {
+            let w = self.wstash.borrow_mut().get_mut(&id).and_then(|v| v.pop());
+            match w {
+                Some(w) => drop(w),
+                None => break,
+            }
+        }
+        Ret::Ok
     }
 
     #[cfg(feature = "weak")]
@@ -1093,7 +1157,12 @@ impl Interp {
 
     /// C01: every object reachable from the program's tables is an intact value in a live box.
     fn oracle_walk(&self) {
-        let starts: Vec<*const Node> = self.h.borrow().iter().flatten().map(|cc| &**cc as *const Node).collect();
+        let mut starts: Vec<*const Node> = self.h.borrow().iter().flatten().map(|cc| &**cc as *const Node).collect();
+        for v in self.stash.borrow().values() {
+            if let Some(cc) = v.first() {
+                starts.push(&**cc as *const Node);
+            }
+        }
         let mut seen: HashSet<usize> = HashSet::new();
         let mut stack = starts;
         while let Some(p) = stack.pop() {
@@ -1212,6 +1281,9 @@ impl Interp {
                 *cnt.entry(cap).or_insert(0) += 1;
             }
         }
+        for (id, v) in self.stash.borrow().iter() {
+            *cnt.entry(*id).or_insert(0) += v.len();
+        }
         cnt
     }
 
@@ -1251,6 +1323,11 @@ impl Interp {
         let mut stack: Vec<usize> = Vec::new();
         for cc in self.h.borrow().iter().flatten() {
             stack.push(unsafe { &*(&**cc as *const Node) }.id);
+        }
+        for (id, v) in self.stash.borrow().iter() {
+            if !v.is_empty() {
+                stack.push(*id);
+            }
         }
         // pinned: targets of untraced edges (untraced fields, cleaner → map, action → captured)
         for (id, b) in reg.iter().enumerate() {
@@ -1324,6 +1401,8 @@ impl Interp {
                 std::mem::forget(c);
             }
         }
+        std::mem::forget(std::mem::take(&mut *self.stash.borrow_mut()));
+        std::mem::forget(std::mem::take(&mut *self.wstash.borrow_mut()));
     }
 }
 
